@@ -87,7 +87,23 @@ fn oracle(c: &Case, ctx: &mut Ctx) -> CaseResult {
 	let c0 = cpu_ms();
 	let mut sim = c.spec.build(false);
 	let t1 = t0.elapsed();
-	let mut r = oracle_inner(c, ctx, &mut sim);
+	// a panic inside the library is a failure of the case (the runner records it); print the history first
+	let mut r = match std::panic::catch_unwind(std::panic::AssertUnwindSafe(|| oracle_inner(c, ctx, &mut sim))) {
+		Ok(r) => r,
+		Err(payload) => {
+			if ctx.replay {
+				println!("==== history (panicked) ====\n{}", dump_history(&sim));
+			}
+			// give the library's own contract assertions a key that does not depend on a line number
+			let (msg, loc) = vcore::take_last_panic().unwrap_or_default();
+			if msg.contains("returned Completed while prior updates are still InProgress") {
+				Err(Failure::new("panic", format!("panic at {}: {}", loc, msg)).with_key("panic/update-completed-while-prior-in-flight"))
+			} else {
+				vcore::set_last_panic(Some((msg, loc)));
+				std::panic::resume_unwind(payload)
+			}
+		},
+	};
 	// development aids (never set by ./check): timing report, and exclusion of failure keys under triage
 	if std::env::var("VERIF_C02_TIMING").is_ok() {
 		let ph = PHASES.with(|p| *p.borrow());
